@@ -1,25 +1,43 @@
 import PdbVerif.Driver.SpecOps
 import PdbVerif.Driver.ModelOps
+import PdbVerif.Driver.SpecA
+import PdbVerif.Driver.SpecB
+import PdbVerif.Driver.SpecC
+import PdbVerif.Driver.SpecD
+import PdbVerif.Driver.SpecE
+import PdbVerif.Driver.SpecF
+import PdbVerif.Driver.ModelA
+import PdbVerif.Driver.ModelB
+import PdbVerif.Driver.ModelC
+import PdbVerif.Driver.ModelD
+import PdbVerif.Driver.ModelE
+import PdbVerif.Driver.ModelF
 
 namespace Driver
 open Lean
 
+def firstSome (fs : List (String → Json → Except String (Option Json))) (op : String) (j : Json) :
+    Except String (Option Json) := do
+  for f in fs do
+    match ← f op j with
+    | some r => return some r
+    | none => pure ()
+  return none
+
+def allSpec : List (String → Json → Except String (Option Json)) :=
+  [specOp, SpecA.op, SpecB.op, SpecC.op, SpecD.op, SpecE.op, SpecF.op]
+def allModel : List (String → Json → Except String (Option Json)) :=
+  [modelOp, ModelA.op, ModelB.op, ModelC.op, ModelD.op, ModelE.op, ModelF.op]
+
 /-- answer `{"model": …, "spec": …}` for one case -/
 def handleBoth (j : Json) : Except String Json := do
   let op ← jStr j "op"
-  let m ← modelOp op j
-  let s ← specOp op j
+  let m ← firstSome allModel op j
+  let s ← firstSome allSpec op j
   match m, s with
   | none, none => .error s!"unknown op {op}"
   | _, _ => pure (Json.mkObj [("model", m.getD .null), ("spec", s.getD .null)])
 
-def handleSpec (j : Json) : Except String Json := do
-  let op ← jStr j "op"
-  match ← specOp op j with
-  | none => .error s!"unknown op {op}"
-  | some s => pure (Json.mkObj [("spec", s)])
-
 def mainBoth : IO Unit := do loop handleBoth (← IO.getStdin) (← IO.getStdout)
-def mainSpec : IO Unit := do loop handleSpec (← IO.getStdin) (← IO.getStdout)
 
 end Driver
